@@ -18,6 +18,8 @@ def swarm(rng):
                 "base_switch": rng.random() < 0.3, "quiet": rng.random() < 0.3, "p_cellsless": rng.choice([0.0, 0.0, 0.4])})
     if rng.random() < 0.1:
         cfg.update({"gadget_recalc_item": True, "recalc": True, "n_spaces": max(cfg["n_spaces"], 3)})
+    elif rng.random() < 0.1:
+        cfg.update({"gadget_attr_readers": True, "n_spaces": max(cfg["n_spaces"], 3)})
     elif rng.random() < 0.15:
         cfg.update({"gadget_refs_only": True, "cellsless_paths": ["D", "C.U"], "n_spaces": max(cfg["n_spaces"], 3)})
     return cfg
@@ -395,7 +397,37 @@ class C13(PropBase):
                            {"op": "eval", "loc": ["A", ["item", [1], "idx"]], "name": "g", "args": [2], "spell": "pos"},
                            {"op": "take_handle", "kind": "dyncells", "space": "A", "args": [1], "name": "g"}):
                     run.step(op)
+            if cfg.get("gadget_attr_readers"):
+                # one reference read through an attribute path by several holders of values
+                for op in ({"op": "new_space", "parent": "", "name": "B", "bases": []},
+                           {"op": "set_ref", "space": "B", "name": "k", "value": {"t": "int", "v": 1007}},
+                           {"op": "new_space", "parent": "", "name": "A", "bases": []},
+                           {"op": "new_cells", "space": "A", "name": "f", "is_cached": True,
+                            "formula": {"style": "lambda", "params": [["x", None]], "ret": ["bin", "+", ["a", ["_model", "B"], "k"], ["p", "x"]]}},
+                           {"op": "new_cells", "space": "A", "name": "g", "is_cached": True,
+                            "formula": {"style": "lambda", "params": [["x", None]], "ret": ["bin", "*", ["a", ["_model", "B"], "k"], ["p", "x"]]}},
+                           {"op": "eval", "loc": ["A"], "name": "f", "args": [1], "spell": "pos"},
+                           {"op": "eval", "loc": ["A"], "name": "g", "args": [2], "spell": "pos"}):
+                    run.step(op)
             run.generate(WEIGHTS, cfg["n_steps"], 0.0 if cfg.get("quiet") else cfg["p_check"])
+            if cfg.get("gadget_attr_readers"):
+                # whatever is left of it: both hold a value, one of them is cleared for a reason of its own, the reference is
+                # deleted (or rebound), and the other is asked again
+                rr = ctx.rng("gadget-tail")
+                qf = {"op": "eval", "loc": ["A"], "name": "f", "args": [1], "spell": "pos"}
+                qg = {"op": "eval", "loc": ["A"], "name": "g", "args": [2], "spell": "pos"}
+                tail = [qf, qg, rr.choice([{"op": "clear", "space": "A", "name": "f"},
+                                           {"op": "set_value", "space": "A", "name": "f", "args": [1], "value": 900090, "how": "setitem"},
+                                           {"op": "clear_at", "space": "A", "name": "g", "args": [2]}])]
+                for _ in range(rr.choice([0, 0, 1, 3])):
+                    op = run.mach.next_op(WEIGHTS)
+                    if op:
+                        tail.append(op)
+                tail += [rr.choice([{"op": "del_ref", "space": "B", "name": "k"}, {"op": "del_ref", "space": "B", "name": "k"},
+                                    {"op": "set_ref", "space": "B", "name": "k", "value": {"t": "int", "v": 900001 + rr.randrange(50)}}]),
+                         qg, qf, {"op": "checkpoint", "extra": [qf, qg], "final": True}]
+                for op in tail:
+                    run.step(op)
             if cfg.get("gadget_recalc_item"):
                 for op in ({"op": "set_value", "space": "B", "name": "f", "args": [0], "value": 900077, "how": "setitem"},
                            {"op": "eval", "loc": ["A", ["item", [1], "idx"]], "name": "g", "args": [2], "spell": "pos"},
